@@ -139,9 +139,24 @@ func (g *gen) scalar(d int) string {
 	case 1:
 		return g.num(d-1) + pick(g.r, []string{" + ", " - ", " * "}) + g.num(d-1)
 	case 2, 3:
+		if g.f.Spies && g.f.SpyPct > 0 && g.r.P(g.f.SpyPct/2) {
+			// a fallible callback as a filter ARGUMENT
+			return g.at("filter-arg", func() string {
+				switch g.r.N(4) {
+				case 0:
+					return pick(g.r, strVars) + "|default(spy('" + g.spyID() + "', 'd'))"
+				case 1:
+					return pick(g.r, listVars[:4]) + "|join(spy('" + g.spyID() + "', ','))"
+				case 2:
+					return "s2|replace('a', spy('" + g.spyID() + "', 'b'))"
+				default:
+					return "s1|slice(spy('" + g.spyID() + "', 0), 2)"
+				}
+			})
+		}
 		return pick(g.r, strVars) + "|" + pick(g.r, strFilters)
 	case 4:
-		return "(" + g.boolean(d-1) + ") ? " + g.scalar(d-1) + " : " + g.scalar(d-1)
+		return "(" + g.boolean(d-1) + ") ? " + g.at("ternary-branch", func() string { return g.wrapSpy(g.scalar(d - 1)) }) + " : " + g.at("ternary-branch", func() string { return g.wrapSpy(g.scalar(d - 1)) })
 	case 5:
 		return pick(g.r, listVars) + "|" + pick(g.r, []string{"length", "first", "last", "join(',')", "join", "json_encode"})
 	case 6:
@@ -202,8 +217,14 @@ func (g *gen) boolean(d int) string {
 	case 4:
 		return pick(g.r, strVars) + " is " + pick(g.r, []string{"defined", "empty", "null", "not defined", "iterable"})
 	case 5:
+		if g.f.Spies && g.f.SpyPct > 0 && g.r.P(g.f.SpyPct/2) {
+			return g.at("test-arg", func() string { return g.num(d-1) + " is divisible_by(spy('" + g.spyID() + "', 3))" })
+		}
 		return g.num(d-1) + " is " + pick(g.r, []string{"even", "odd", "divisible_by(3)"})
 	case 6:
+		if g.f.Spies && g.f.SpyPct > 0 && g.r.P(g.f.SpyPct/2) {
+			return g.at("in-operand", func() string { return "spy('" + g.spyID() + "', s1) in " + pick(g.r, listVars) })
+		}
 		return g.scalar(0) + " in " + pick(g.r, listVars)
 	case 7:
 		return "s1 starts with " + g.strLit()
@@ -224,7 +245,7 @@ func (g *gen) boolean(d int) string {
 func (g *gen) list(d int) string {
 	switch g.r.N(8) {
 	case 0:
-		return "[" + g.scalar(d-1) + ", " + g.scalar(0) + ", " + g.scalar(0) + "]"
+		return "[" + g.at("array-element", func() string { return g.wrapSpy(g.scalar(d - 1)) }) + ", " + g.scalar(0) + ", " + g.scalar(0) + "]"
 	case 1:
 		return "range(1, " + fmt.Sprint(g.r.N(4)+1) + ")"
 	case 2:
@@ -247,7 +268,7 @@ func (g *gen) hash(d int) string {
 	n := g.r.Range(1, 3)
 	parts := make([]string, n)
 	for i := range parts {
-		parts[i] = fmt.Sprintf("'h%d': %s", i, g.scalar(d-1))
+		parts[i] = fmt.Sprintf("'h%d': %s", i, g.at("hash-value", func() string { return g.wrapSpy(g.scalar(d - 1)) }))
 	}
 	return "{" + strings.Join(parts, ", ") + "}"
 }
@@ -309,7 +330,7 @@ func (g *gen) seg(d int) string {
 		}
 		return g.print(g.scalar(1))
 	}
-	switch g.r.N(22) {
+	switch g.r.N(23) {
 	case 0, 1, 2:
 		return g.text()
 	case 3, 4, 5:
@@ -327,7 +348,7 @@ func (g *gen) seg(d int) string {
 		v := pick(g.r, []string{"it", "x", "row"})
 		s := g.open("for "+v+" in "+g.at("for-seq", func() string { return g.seqSpy(g.list(1)) })) + g.print(v) + g.print("loop.index") + g.at("for-body", func() string { return g.body(d - 1) })
 		if g.r.P(30) {
-			s += g.open("else") + g.text()
+			s += g.open("else") + g.at("for-else", func() string { return g.seg(0) })
 		}
 		return s + g.open("endfor")
 	case 9:
@@ -353,6 +374,9 @@ func (g *gen) seg(d int) string {
 			} else if g.r.P(25) {
 				// an existing template included with `ignore missing`: only not-found may be ignored
 				s = "include '" + name + "' ignore missing"
+			}
+			if g.f.Sandbox && g.r.P(25) {
+				s += " sandboxed"
 			}
 			return g.open(s)
 		}
@@ -398,6 +422,8 @@ func (g *gen) seg(d int) string {
 			return g.open("do spy('" + g.spyID() + "', " + g.scalar(0) + ")")
 		}
 		return g.open("do " + g.num(1))
+	case 21:
+		return g.print(g.hash(1) + "|json_encode")
 	case 19:
 		if g.f.Spies {
 			return g.print("spy('" + g.spyID() + "', " + g.scalar(1) + ")")
@@ -522,6 +548,22 @@ func genProgram(r *R, f Feat) *Program {
 		}
 		p.Templates = append(p.Templates, base)
 		ref := base.Name
+		if r.P(35) {
+			// a middle level: main extends mid extends base
+			mid := Tmpl{Name: dir + "mid"}
+			mid.Segs = append(mid.Segs, g.open("extends '"+base.Name+"'"))
+			for i := 0; i < nb; i++ {
+				if true { // every block: a level that skips a block makes parent() in the child fail in this engine
+					b := g.at("mid-block", func() string { return g.body(1) })
+					if r.P(50) {
+						b += g.print("parent()")
+					}
+					mid.Segs = append(mid.Segs, g.open(fmt.Sprintf("block b%d", i))+b+g.open("endblock"))
+				}
+			}
+			p.Templates = append(p.Templates, mid)
+			ref = mid.Name
+		}
 		main.Segs = append(main.Segs, g.open("extends '"+ref+"'"))
 		for i := 0; i < nb; i++ {
 			if r.P(70) {
